@@ -63,7 +63,7 @@ def finalize(agg, tier):
     for n in ("thread_runs:tsan", "thread_runs:plain", "thread_transcripts_compared", "hammer_digests", "interleaved_programs",
               "copies_checked", "destroyed_neighbours", "snapshots_compared", "signer_hash_state_checked", "first_use_trials",
               "first_use_yields_injected", "native_hammer_calls", "native_hammer_runs:plain", "native_hammer_runs:tsan", "python_hammer_calls", "random_storm_draws", "input_sweep_rounds",
-              "input_buffers_compared", "held_reference_objects"):
+              "input_buffers_compared", "held_reference_objects", "integer_inputs_compared"):
         if not c.get(n):
             out.append("deciding counter %s is zero" % n)
     for cv in CURVES:
@@ -1015,9 +1015,51 @@ def w_inputs_sweep(spec, ctx):
             HPKE.new(receiver_key=x25, aead_id=HPKE.AEAD.AES128_GCM, enc=B(s_.enc), info=B(b"info")).unseal(B(ct), B(b"aad"))
         yield "HPKE", hp
 
+    # ---- caller-owned Integer objects (Crypto.Math.Numbers.Integer is mutable: in-place operators exist)
+    from Crypto.Math.Numbers import Integer
+    from Crypto.Math import Primality
+    ireg = []
+
+    def I(v):
+        x = Integer(v)
+        ireg.append((x, v))
+        return x
+
+    def int_apis():
+        p_, q_ = int(rsa.p), int(rsa.q)
+        big = rng.getrandbits(300) | 1
+        yield "DerInteger.encode", lambda: (asn1.DerInteger(I(100000)).encode(), asn1.DerInteger(I(-big)).encode(), asn1.DerInteger(I(0)).encode())
+        yield "DerSequence.encode", lambda: asn1.DerSequence([I(big), I(255), 7, I(-129)]).encode()
+        yield "DerSetOf.encode", lambda: asn1.DerSetOf([I(5), I(big)]).encode()
+        yield "RSA.construct", lambda: RSA.construct((I(int(rsa.n)), I(int(rsa.e)), I(int(rsa.d)), I(p_), I(q_))).export_key("DER")
+        yield "RSA.construct-public", lambda: RSA.construct((I(int(rsa.n)), I(65537))).export_key("PEM")
+        yield "DSA.construct", lambda: DSA.construct((I(int(dsa.y)), I(int(dsa.g)), I(int(dsa.p)), I(int(dsa.q)), I(int(dsa.x)))).export_key("DER")
+        yield "ECC.construct", lambda: ECC.construct(curve="P-256", d=I(int(ecc.d))).export_key(format="DER")
+        yield "ECC.construct-point", lambda: ECC.construct(curve="P-256", point_x=I(int(ecc.pointQ.x)), point_y=I(int(ecc.pointQ.y))).export_key(format="SEC1")
+        yield "EccPoint", lambda: (ECC.EccPoint(I(int(ecc.pointQ.x)), I(int(ecc.pointQ.y)), "P-256") * I(big)).xy
+        yield "Integer-arithmetic", lambda: (I(big) + I(5), I(big) * I(3), I(big) % I(1000003), pow(I(big), I(65537), I(int(rsa.n))), I(big) >> 8,
+                                              I(big).gcd(I(12)), I(7).inverse(I(1000003)), I(big).sqrt(), I(big) & I(0xFFFF), I(big) // I(3))
+        yield "Primality", lambda: (Primality.test_probable_prime(I(p_)), Primality.miller_rabin_test(I(p_), 3), Primality.lucas_test(I(p_)))
+        yield "Integer.random_range", lambda: Integer.random_range(min_inclusive=I(5), max_inclusive=I(big))
+        yield "Integer.to_bytes", lambda: (I(big).to_bytes(), I(big).to_bytes(64), I(big).size_in_bits(), int(I(big)), str(I(big)))
+
     first = True
     while first or not ctx.expired():
         first = False
+        for api, fn in int_apis():
+            del ireg[:]
+            ctx.case(("integer-inputs", api))
+            try:
+                fn()
+            except (TypeError, ValueError):
+                ctx.count("input_sweep_integer_refused:" + api)
+                continue
+            for x, v in ireg:
+                ctx.count("integer_inputs_compared")
+                now = int(x)
+                ctx.check(now == v, "snapshot:integer-input-mutated:" + api.split(".")[0].split("-")[0],
+                          "a caller-owned Crypto.Math.Numbers.Integer changed its value during a library call it was only an input of",
+                          lambda: {"api": api, "before": hex(v), "after": hex(now)})
         for api, fn in apis():
             del reg[:]
             ctx.case(("inputs", api))
